@@ -66,31 +66,40 @@ Lemma create_group : forall V s par nid tg act a,
   (add_node s (Some (mkNode (PInt nid) NGroup)),
    [SMsg [PStr (if par then "/p_new" else "/g_new"); PInt nid; PInt a; target_id s tg]], None).
 Proof.
-  intros V s par nid tg act a Ht Ha. unfold obj_step. rewrite Ht, Ha. simpl. destruct par; reflexivity.
+  intros V s par nid tg act a Ht Ha. unfold obj_step; cbn [maps_ok op_args forallb]; unfold obj_step_core. rewrite Ht, Ha. simpl. destruct par; reflexivity.
 Qed.
 
 Lemma create_synth : forall V s nid def args tg act a,
-  target_ok s tg = true -> action_number act = Some a ->
+  pv_maps_ok s args = true -> target_ok s tg = true -> action_number act = Some a ->
   obj_step V s (OSynth SInit nid def args tg act) =
   (add_node s (Some (mkNode (PInt nid) NSynth)),
    [SMsg (PStr "/s_new" :: PStr def :: PInt nid :: PInt a :: target_id s tg :: oal (v_dict_brackets V) s (args_or_empty args))], None).
-Proof. intros V s nid def args tg act a Ht Ha. unfold obj_step. rewrite Ht, Ha. reflexivity. Qed.
+Proof.
+  intros V s nid def args tg act a Hm Ht Ha. unfold obj_step, maps_ok. cbn [op_args forallb]. rewrite Hm. cbn [andb].
+  unfold obj_step_core. rewrite Ht, Ha. reflexivity.
+Qed.
 
 Lemma create_synth_paused : forall V s nid def args tg act a,
-  target_ok s tg = true -> action_number act = Some a ->
+  pv_maps_ok s args = true -> target_ok s tg = true -> action_number act = Some a ->
   obj_step V s (OSynth SPaused nid def args tg act) =
   (add_node s (Some (mkNode (PInt nid) NSynth)),
    [SBundle PNone [PStr "/s_new" :: PStr def :: PInt nid :: PInt a :: target_id s tg :: oal (v_dict_brackets V) s (args_or_empty args);
                    [PStr "/n_run"; PInt nid; PInt 0]]], None).
-Proof. intros V s nid def args tg act a Ht Ha. unfold obj_step. rewrite Ht, Ha. reflexivity. Qed.
+Proof.
+  intros V s nid def args tg act a Hm Ht Ha. unfold obj_step, maps_ok. cbn [op_args forallb]. rewrite Hm. cbn [andb].
+  unfold obj_step_core. rewrite Ht, Ha. reflexivity.
+Qed.
 
 Lemma create_synth_replace : forall V s nid def args i t same act,
-  get_node s i = Some t ->
+  pv_maps_ok s args = true -> get_node s i = Some t ->
   obj_step V s (OSynth (SReplace same) nid def args (TgNode i) act) =
   (add_node s (Some (mkNode (if same then n_id t else PInt nid) NSynth)),
    [SMsg (PStr "/s_new" :: PStr def :: (if same then n_id t else PInt nid) :: PInt 4 :: n_id t
           :: oal (v_dict_brackets V) s (args_or_empty args))], None).
-Proof. intros V s nid def args i t same act Hg. unfold obj_step. rewrite Hg. reflexivity. Qed.
+Proof.
+  intros V s nid def args i t same act Hm Hg. unfold obj_step, maps_ok. cbn [op_args forallb]. rewrite Hm. cbn [andb].
+  unfold obj_step_core. rewrite Hg. reflexivity.
+Qed.
 
 (* the buffer number of a new Buffer: the caller's, else the allocator's *)
 Definition new_bufnum (bufnum addr : option Z) : option Z :=
@@ -111,7 +120,7 @@ Lemma create_buffer : forall V s addr frames chans bufnum c num,
      [SMsg [PStr "/b_alloc"; PInt num; frames; chans; compl_val c (PInt num)]], None)
     /\ bufs s1 = bufs s.
 Proof.
-  intros V s addr frames chans bufnum c num Hn Hf. unfold obj_step.
+  intros V s addr frames chans bufnum c num Hn Hf. unfold obj_step; cbn [maps_ok op_args forallb]; unfold obj_step_core.
   pose proof (alloc_bufnum_num s bufnum addr 1) as H.
   destruct (alloc_bufnum s bufnum addr 1) as [[z s1]|].
   - destruct H as [H1 [_ H3]]. rewrite Hn in H1. inversion H1; subst z. rewrite Hf.
@@ -125,7 +134,7 @@ Lemma create_consecutive : forall V s addr n frames chans bufnum c base,
     obj_step V s (OBufConsecutive addr n frames chans bufnum c) =
     (s2, map (fun i => SMsg [PStr "/b_alloc"; PInt i; frames; chans; compl_val c (PInt i)]) (zrange base n), None).
 Proof.
-  intros V s addr n frames chans bufnum c base Hn. unfold obj_step.
+  intros V s addr n frames chans bufnum c base Hn. unfold obj_step; cbn [maps_ok op_args forallb]; unfold obj_step_core.
   pose proof (alloc_bufnum_num s bufnum addr (Z.of_nat n)) as H.
   destruct (alloc_bufnum s bufnum addr (Z.of_nat n)) as [[z s1]|].
   - destruct H as [H1 _]. rewrite Hn in H1. inversion H1; subst z. eexists. reflexivity.
@@ -139,7 +148,7 @@ Lemma create_buffer_read : forall V s addr path start frames bufnum num,
     (s2, [SMsg [PStr "/b_allocRead"; PInt num; PStr path; PInt start; PInt frames;
                 PList [PStr "/b_query"; PInt num]]], None).
 Proof.
-  intros V s addr path start frames bufnum num Hn. unfold obj_step.
+  intros V s addr path start frames bufnum num Hn. unfold obj_step; cbn [maps_ok op_args forallb]; unfold obj_step_core.
   pose proof (alloc_bufnum_num s bufnum addr 1) as H.
   destruct (alloc_bufnum s bufnum addr 1) as [[z s1]|].
   - destruct H as [H1 _]. rewrite Hn in H1. inversion H1; subst z. eexists. reflexivity.
@@ -154,7 +163,7 @@ Lemma create_buffer_cue : forall V s addr path start size chans bufnum c num,
                 PList [PStr "/b_read"; PInt num; PStr path; PInt start; PInt size; PInt 0; PBool true;
                        compl_val c (PInt num)]]], None).
 Proof.
-  intros V s addr path start size chans bufnum c num Hn. unfold obj_step.
+  intros V s addr path start size chans bufnum c num Hn. unfold obj_step; cbn [maps_ok op_args forallb]; unfold obj_step_core.
   pose proof (alloc_bufnum_num s bufnum addr 1) as H.
   destruct (alloc_bufnum s bufnum addr 1) as [[z s1]|].
   - destruct H as [H1 _]. rewrite Hn in H1. inversion H1; subst z. eexists. reflexivity.
@@ -166,14 +175,14 @@ Qed.
 Lemma free_node : forall V s n x,
   get_node s n = Some x ->
   obj_step V s (ONodeFree n true) = (s, [SMsg [PStr "/n_free"; n_id x]], None).
-Proof. intros V s n x H. unfold obj_step. rewrite H. reflexivity. Qed.
+Proof. intros V s n x H. unfold obj_step; cbn [maps_ok op_args forallb]; unfold obj_step_core. rewrite H. reflexivity. Qed.
 
 Lemma free_buffer_live : forall V s b x a c,
   get_buf s b = Some x -> b_num x = PInt a ->
   obj_step V s (OBufFree b c) =
   (set_buf (set_bblocks s (blk_remove a (bblocks s))) b (mkBuf PNone PNone PNone),
    [SMsg [PStr "/b_free"; PInt a; compl_val c (PInt a)]], None).
-Proof. intros V s b x a c H Hn. unfold obj_step. rewrite H, Hn. reflexivity. Qed.
+Proof. intros V s b x a c H Hn. unfold obj_step; cbn [maps_ok op_args forallb]; unfold obj_step_core. rewrite H, Hn. reflexivity. Qed.
 
 Lemma free_buffer_clears : forall s b,
   (b < List.length (bufs s))%nat ->
@@ -188,13 +197,13 @@ Qed.
 Lemma free_buffer_again_repaired : forall s b x c,
   get_buf s b = Some x -> b_num x = PNone ->
   obj_step repaired s (OBufFree b c) = (s, [], None).
-Proof. intros s b x c H Hn. unfold obj_step. rewrite H, Hn. reflexivity. Qed.
+Proof. intros s b x c H Hn. unfold obj_step; cbn [maps_ok op_args forallb]; unfold obj_step_core. rewrite H, Hn. reflexivity. Qed.
 
 (* the code as found: the second free() still sends, with None in the id position *)
 Lemma free_buffer_again_as_found : forall s b x c,
   get_buf s b = Some x -> b_num x = PNone ->
   snd (fst (obj_step as_found s (OBufFree b c))) = [SMsg [PStr "/b_free"; PNone; compl_val c PNone]].
-Proof. intros s b x c H Hn. unfold obj_step. rewrite H, Hn. reflexivity. Qed.
+Proof. intros s b x c H Hn. unfold obj_step; cbn [maps_ok op_args forallb]; unfold obj_step_core. rewrite H, Hn. reflexivity. Qed.
 
 
 (* ids inside the used blocks of the buffer allocator *)
@@ -205,7 +214,7 @@ Lemma free_all_repaired : forall s,
   obj_step repaired s OBufFreeAll =
   (set_bblocks s [], [SBundle PNone (map (fun i => [PStr "/b_free"; PInt i]) (owned_ids (bblocks s)))], None).
 Proof.
-  intros s. unfold obj_step, ok, owned_ids. simpl. f_equal. f_equal. f_equal. f_equal.
+  intros s. unfold obj_step; cbn [maps_ok op_args forallb]; unfold obj_step_core, ok, owned_ids. simpl. f_equal. f_equal. f_equal. f_equal.
   induction (bblocks s) as [|b l IH]; simpl; [reflexivity|].
   rewrite map_app, IH. reflexivity.
 Qed.
